@@ -939,7 +939,7 @@ def run(chk):
         handle_broken(chk)
 
     progs = [corpus_program(c) for c in CORPUS]
-    n_prog = 1000 if quick else 60000
+    n_prog = 700 if quick else 60000
     for i in range(n_prog):
         if quick:
             n_ops = rng.choice([1, 2, 3, 4, 5, 6])
